@@ -158,6 +158,9 @@ func decAlphabet(n *DecNode, decoder bool) []DecOp {
 			addBlk([]lz.Seq{f, g}, 2, false)
 		}
 	}
+	// an empty sequence followed by trailing literals that do not fit
+	addBlk([]lz.Seq{{}}, max(free, 0)+1, false)
+	addBlk([]lz.Seq{{}, {}}, B-W+1, false)
 	// blocks of three and four small sequences: one WriteBlock call then needs several drain-and-retry rounds
 	one := lz.Seq{LitLen: 1, MatchLen: 1, Offset: 1}
 	addBlk([]lz.Seq{one, one, one}, 0, false)
